@@ -1531,17 +1531,28 @@ class GeoboxTiles:
         if A is not None:
             return self._grid_intersect_linear(src, A)
 
+        src_footprint: Optional[Geometry]
         if src.base.crs == self.base.crs:
             src_footprint = src.base.extent
         else:
             # compute "robust" source footprint in CRS of self via espg:4326
-            src_footprint = src.base.footprint(4326, 2) & self.base.footprint(4326, 2)
-            if src_footprint.is_empty:
-                # rasters do not overlap: no tile depends on any source tile
-                return {}
-            src_footprint = src_footprint.to_crs(self.base.crs)
+            fp_src = src.base.footprint(4326, 2)
+            fp_dst = self.base.footprint(4326, 2)
+            if fp_src.is_valid and fp_dst.is_valid:
+                src_footprint = fp_src & fp_dst
+                if src_footprint.is_empty:
+                    # rasters do not overlap: no tile depends on any source tile
+                    return {}
+                src_footprint = src_footprint.to_crs(self.base.crs)
+            else:
+                # footprint of a (nearly) world-spanning raster is not a valid
+                # lon/lat polygon: do not pre-select destination tiles at all
+                src_footprint = None
 
-        xy_chunks_with_data = list(self.tiles(src_footprint))
+        if src_footprint is None:
+            xy_chunks_with_data = list(self._all_tiles())
+        else:
+            xy_chunks_with_data = list(self.tiles(src_footprint))
         deps: Dict[Tuple[int, int], List[Tuple[int, int]]] = {}
 
         for idx in xy_chunks_with_data:
